@@ -98,6 +98,10 @@ func (t *token) Float64() float64 {
 }
 
 func (t *token) Append(b *token) {
+	if b == nil {
+		// e.g. "x /;": the operand position holds a token that yields no node
+		panicf("missing operand for %v", t.Text)
+	}
 	t.Tokens = append(t.Tokens, b)
 }
 
